@@ -6,6 +6,7 @@ import (
 	"errors"
 	"fmt"
 	"sync"
+	"sync/atomic"
 	"time"
 
 	flyt "github.com/mark3labs/flyt"
@@ -36,6 +37,8 @@ type WaitCase struct {
 	CtxNearMs int `json:"ctx_near_ms,omitempty"` // with Cancel: the context also carries a deadline this many ms away — BEFORE the end of the hour-long wait, but long after the explicit cancel(): the error is still the context's (Canceled)
 	ErrKind string `json:"err_kind,omitempty"` // "ctx-timeout" / "ctx-canceled": failing attempts return an error that wraps context.DeadlineExceeded / context.Canceled although the run's context is alive (a per-attempt timeout)
 	GiveUpAt int `json:"give_up_at,omitempty"` // shrinking kinds: once this many attempts have been made the node's budget is 1
+	CtxOwn bool `json:"ctx_own,omitempty"` // with Cancel: the context is a hand-written type whose Err() returns an error value of its own
+	AfterCancelledRun bool `json:"after_cancelled_run,omitempty"` // the SAME node was run before under another context that was cancelled 30 ms into its first retry wait; the measured run follows at once
 	SpinUs int `json:"spin_us,omitempty"` // batch: every failing attempt of item i ends i*SpinUs microseconds after it began (siblings' waits begin a fraction of a millisecond apart)
 	PreWaitNs int64 `json:"pre_wait_ns,omitempty"` // > 0: the node is first built with THIS wait and run once; then the wait is re-configured (builder method) to WaitNs and the measured run follows
 }
@@ -77,6 +80,19 @@ type retryAfterErr struct{ d time.Duration }
 func (e retryAfterErr) Error() string             { return "rate limited" }
 func (e retryAfterErr) RetryAfter() time.Duration { return e.d }
 
+// ownErrCtx wraps a cancellable context and reports an error value of its own once that context is done.
+type ownErrCtx struct {
+	context.Context
+	own error
+}
+
+func (c *ownErrCtx) Err() error {
+	if c.Context.Err() != nil {
+		return c.own
+	}
+	return nil
+}
+
 type waitNodeFB struct{ waitNode }
 
 func (n *waitNodeFB) ExecFallback(p any, err error) (any, error) { return "rescued", nil }
@@ -90,6 +106,7 @@ type waitRun struct {
 	cancel   func()
 	cancelAt time.Time
 	visitEnds []time.Time
+	failAll  atomic.Bool
 }
 
 func (n *waitNode) Prep(ctx context.Context, s *flyt.SharedStore) (any, error) {
@@ -106,6 +123,9 @@ func (w *waitRun) exec(ctx context.Context, item int) (any, error) {
 	w.mu.Unlock()
 	var err error
 	k := w.cs.K
+	if w.failAll.Load() {
+		k = 1 << 30 // (the earlier, to-be-cancelled run: every attempt fails)
+	}
 	if item == 0 && w.cs.K0 > 0 {
 		k = w.cs.K0
 	}
@@ -193,6 +213,9 @@ func runWaitCase(cs *WaitCase) (*waitObs, []finding) {
 		if cs.CtxCause {
 			cc, ccf := context.WithCancelCause(ctx)
 			c, cf = cc, func() { ccf(errors.New("custom cancellation cause")) }
+		}
+		if cs.CtxOwn { // a hand-written context type: its Err() is an error value of its own ("the context's error" is what the context says)
+			c = &ownErrCtx{Context: c, own: errors.New("lease on the work item was lost")}
 		}
 		ctx, w.cancel = c, cf
 		defer cf()
@@ -307,6 +330,33 @@ func runWaitCase(cs *WaitCase) (*waitObs, []finding) {
 				slots = res
 				return "done", nil
 			})
+	}
+	if cs.AfterCancelledRun {
+		// earlier run of the same node object: cancelled while it sits in its first retry wait; what was measured is forgotten
+		w.failAll.Store(true)
+		ectx, ecancel := context.WithCancel(context.Background())
+		edone := make(chan struct{})
+		go func() { defer close(edone); _, _ = flyt.Run(ectx, node, flyt.NewSharedStore()) }()
+		for i := 0; i < 2000; i++ { // until the first attempt has ended
+			w.mu.Lock()
+			n := len(w.ends[0])
+			w.mu.Unlock()
+			if n > 0 {
+				break
+			}
+			time.Sleep(time.Millisecond)
+		}
+		time.Sleep(30 * time.Millisecond)
+		ecancel()
+		select {
+		case <-edone:
+		case <-time.After(20 * time.Second):
+			add("earlier-run-hung:"+cs.Kind, "the earlier (cancelled) run did not return")
+		}
+		w.failAll.Store(false)
+		w.mu.Lock()
+		w.starts, w.ends = map[int][]time.Time{}, map[int][]time.Time{}
+		w.mu.Unlock()
 	}
 	if cs.PreWaitNs > 0 {
 		// earlier run with the earlier wait, then re-configure through the builder method and forget what was measured
@@ -509,6 +559,20 @@ func runC20(c *Cfg) {
 		}
 	}
 	// upper bounds ("no wait before the first attempt or after the last one"): w = 300 ms
+	// a hand-written context type (its Err() is an error of its own) cancelled during the wait: the run's / the item's
+	// error matches THAT error
+	for _, kind := range []string{"struct", "func", "batch"} {
+		for _, cc := range []int{0, 2} {
+			if kind != "batch" && cc > 0 {
+				continue
+			}
+			cases = append(cases, &WaitCase{Family: "interrupt-own-context-type", Kind: kind, WaitNs: int64(time.Hour), N: 3, K: 4, Cancel: 1, InCB: cc == 0, C: cc, Items: 3, CtxOwn: true})
+		}
+	}
+	// the same node right after a run of it was cancelled in the middle of a retry wait: no wait before the first attempt
+	for _, kind := range []string{"struct", "func", "struct-override"} {
+		cases = append(cases, &WaitCase{Family: "upper-after-cancelled-run", Kind: kind, WaitNs: int64(600 * time.Millisecond), N: 3, K: 1, Upper: true, Items: 1, AfterCancelledRun: true})
+	}
 	// a node that lowers its own budget while it runs: whichever attempt turns out to be the last, no wait follows it
 	for _, kind := range []string{"struct-shrinking", "func-shrinking"} {
 		cases = append(cases, &WaitCase{Family: "upper-shrinking-budget", Kind: kind, WaitNs: int64(300 * time.Millisecond), N: 3, K: 4, GiveUpAt: 2, Upper: true, Items: 1})
@@ -619,6 +683,10 @@ func runC20(c *Cfg) {
 		// upper-bound clauses: re-run with doubled w before reporting
 		if cs.Upper && !o.Hung {
 			bad := func(o *waitObs, w int64) string {
+				if cs.AfterCancelledRun && o.BeforeFirst >= w/2 {
+					// (the earlier run was cancelled 30 ms into its wait: whatever it left behind is at most w - 30 ms long)
+					return fmt.Sprintf("first attempt started %v after prep on a node whose previous run was cancelled in the middle of a %v retry wait: (the rest of) that wait was applied before the first attempt of the NEXT run", time.Duration(o.BeforeFirst), time.Duration(w))
+				}
 				if o.BeforeFirst >= w {
 					return fmt.Sprintf("first attempt started %v after prep, i.e. the configured wait (%v) was applied before the first attempt", time.Duration(o.BeforeFirst), time.Duration(w))
 				}
@@ -639,7 +707,7 @@ func runC20(c *Cfg) {
 			}
 			if msg != "" {
 				key := "wait-before-first:"
-				if o.BeforeFirst < cs.WaitNs {
+				if o.BeforeFirst < cs.WaitNs && !cs.AfterCancelledRun {
 					key = "wait-after-last:"
 				}
 				fs = append(fs, finding{key + cs.Kind, msg + " (confirmed 3 more times with the wait doubled each time)"})
